@@ -1,0 +1,27 @@
+//go:build verif
+
+package tracker
+
+// VerifInflight is one in-flight append as tracked by Inflights.
+type VerifInflight struct {
+	Index, Bytes uint64
+}
+
+// VerifItems returns the tracked in-flight messages in order.
+func (in *Inflights) VerifItems() []VerifInflight {
+	if in == nil || in.count == 0 {
+		return nil
+	}
+	out := make([]VerifInflight, 0, in.count)
+	idx := in.start
+	for i := 0; i < in.count; i++ {
+		out = append(out, VerifInflight{Index: in.buffer[idx].index, Bytes: in.buffer[idx].bytes})
+		if idx++; idx >= in.size {
+			idx -= in.size
+		}
+	}
+	return out
+}
+
+// VerifSentCommit returns the commit index most recently sent to the peer.
+func (pr *Progress) VerifSentCommit() uint64 { return pr.sentCommit }
